@@ -9,7 +9,7 @@ import json
 import math
 import random
 
-from harness import fix, tlc, tracecheck
+from harness import alpha, fix, tlc, tracecheck
 
 
 def _mods():
@@ -34,6 +34,15 @@ class Drv:
         self.an = an
         self.calls = 0
         self.max_passes = 0
+
+    def fresh(self, ell):
+        """caller-built ellipsoids are re-built for every use (the last two stay alive): short-lived objects, recycled ids"""
+        en, E = ell
+        if not hasattr(E, "_verif_defn"):
+            return ell
+        e = alpha.build(type(E), *E._verif_defn)
+        self.keep = (getattr(self, "keep", []) + [e])[-2:]
+        return (en, e)
 
     def inv_event(self, z1, e1, n1, z2, e2, n2, hemi, ell, tag):
         gc, cv, gd = self.gc, self.cv, self.gd
@@ -110,7 +119,8 @@ class Drv:
             g1 = cv.geo2grid(la1, float(cm), zone, E)
             g2 = cv.geo2grid(la2, float(cm), zone, E)
             dist, g12, g21, lsf = gd.vincinv_utm(zone, g1[2], g1[3], zone, g2[2], g2[3], hemi, E)
-            ev["o"] = {"ell": {"a": E_(E.semimaj), "invf": E_(E.inversef), "n0": E_(1.0 / (2.0 * float(E.inversef) - 1.0))},
+            a_, invf_ = alpha.defn(E, "semimaj", "inversef")
+            ev["o"] = {"ell": {"a": E_(a_), "invf": E_(invf_), "n0": E_(1.0 / (2.0 * invf_ - 1.0))},
                        "tri1": list(tri1), "tri2": list(tri2), "k0": E_(0.9996), "dist": E_(dist), "lsf": E_(lsf), "g12": E_(g12),
                        "g21": E_(g21), "passes": 0}
         except Exception as ex:
@@ -136,7 +146,11 @@ def run(ctx):
     ctx.add_tlc(r, "GridGeodesic model: InvUTM behaviour, DirUTM iteration terminates (contraction abstraction), passes <= 4")
     if r.violated:
         raise tlc.MachineryError("GridGeodesic model violated %s" % r.violated)
-    ells = [("grs80", gc.grs80), ("wgs84", gc.wgs84), ("ans", gc.ans), ("intl24", gc.intl24)]
+    # shipped ellipsoids + ellipsoids built by the caller: NWL-9D shares 1/f with ANS (a cache keyed on 1/f alone would confuse them),
+    # one random Earth-like one; d.fresh() hands over newly built objects (recycled ids) for the caller-built ones
+    ells = [("grs80", gc.grs80), ("wgs84", gc.wgs84), ("ans", gc.ans), ("intl24", gc.intl24),
+            ("nwl9d", alpha.build(gc.Ellipsoid, 6378145.0, 298.25)),
+            ("rand", alpha.build(gc.Ellipsoid, round(rnd.uniform(6.3e6, 6.4e6), 3), round(rnd.uniform(280, 320), 6)))]
     evs = []
     zones = [1, 30, 31, 55, 60]
     lats = [-79.0, -60.0, -33.0, -5.0, 0.5, 20.0, 45.0, 70.0, 83.0]
@@ -149,7 +163,7 @@ def run(ctx):
                 n += 1
                 if quick and n % 3:
                     continue
-                ell = ells[n % 4]
+                ell = d.fresh(ells[n % 6])
                 E = ell[1]
                 hemi = "south" if lat < 0 else "north"
                 n1 = cv.geo2grid(lat + rnd.uniform(-0.4, 0.4), float(cm), zone, E)[3]
@@ -189,7 +203,7 @@ def run(ctx):
                 k += 1
                 if quick and k % 2:
                     continue
-                ell = ells[k % 4]
+                ell = d.fresh(ells[k % 6])
                 E = ell[1]
                 hemi = "south" if lat < 0 else "north"
                 n1 = cv.geo2grid(lat, float(cm), zone, E)[3]
@@ -207,7 +221,7 @@ def run(ctx):
         for j, t2 in enumerate(tris):
             if t1 == t2 or (quick and (i + j) % 4):
                 continue
-            ell = ells[(i + j) % 4]
+            ell = d.fresh(ells[(i + j) % 6])
             evs.append(d.cm_event([1, 30, 55, 60][(i + j) % 4], t1, t2, ell, "cm north"))
             if math.degrees(math.atan2(t1[0], t1[1])) <= 79 and math.degrees(math.atan2(t2[0], t2[1])) <= 79:
                 evs.append(d.cm_event([1, 30, 55, 60][(i + j + 1) % 4], (-t1[0], t1[1], t1[2]), (-t2[0], t2[1], t2[2]), ell, "cm south"))
@@ -261,8 +275,11 @@ def replay(ctx, data):
     d = Drv()
     gc = d.gc
     c = data["case"]
-    ells = {"grs80": gc.grs80, "wgs84": gc.wgs84, "ans": gc.ans, "intl24": gc.intl24}
+    ells = {"grs80": gc.grs80, "wgs84": gc.wgs84, "ans": gc.ans, "intl24": gc.intl24, "nwl9d": alpha.build(gc.Ellipsoid, 6378145.0, 298.25)}
     a = c["args"]
+    if a[7 if c["kind"] == "INV" else 3] not in ells:
+        print("case on a random ellipsoid: re-run the check with the recorded seed")
+        return
     if c["kind"] == "INV":
         evs = [d.inv_event(a[0], a[1], a[2], a[3], a[4], a[5], a[6], (a[7], ells[a[7]]), c["tag"])]
     elif c["kind"] == "CM":
